@@ -1237,6 +1237,7 @@ package anytype
 //@   let t0 := trlen()
 //@   assigns  nothing
 //@   panics_iff false
+//@   callback_args okArg(a0) && okArg(a1) && supp(a1)
 //@   ensures  calls: exists o ord :: {isEnum(o, dom(ego.val), n)} isEnum(o, dom(ego.val), n) && trlen() == t0 + cntV(composeOV(o, vals(ego.val)), KIND, n) && (forall k int :: {cntV(composeOV(o, vals(ego.val)), KIND, k)} 0 <= k && k < n && visited(KIND, ego.val[o[k]]) ==> trA(t0 + cntV(composeOV(o, vals(ego.val)), KIND, k)) == A0 && trB(t0 + cntV(composeOV(o, vals(ego.val)), KIND, k)) == A1)
 //@   ensures  prefix: forall j int :: 0 <= j && j < t0 ==> trA(j) == old(trA(j)) && trB(j) == old(trB(j))
 //@   ensures  fluent: result == ego.ptr [C19]
@@ -1251,7 +1252,6 @@ package anytype
 //@     invariant prefix: forall j int :: 0 <= j && j < t0 ==> trA(j) == old(trA(j)) && trB(j) == old(trB(j))
 //@     decreases ordn - idx
 //@ end
-//@ instantiate oforeach-kind(ForEach, 0, VStr(o[k]), valOf(ego.val[o[k]]))
 //@ instantiate oforeach-kind(ForEachValue, 0, valOf(ego.val[o[k]]), VNil)
 //@ instantiate oforeach-kind(ForEachObject, TObject, ego.val[o[k]], VNil)
 //@ instantiate oforeach-kind(ForEachList, TList, ego.val[o[k]], VNil)
@@ -1460,4 +1460,45 @@ package anytype
 //@ func native bounded [C13]
 //@ func (*list).NativeSlice bounded [C13]
 //@ func (*object).NativeDict bounded [C13]
-//@ func (*object).Merge bounded [C06 C09]
+
+// Merge (C06, C09): Clone of the receiver, then one Set per field of the argument through an
+// accumulating closure (each / others clauses; see DESIGN.md I.9).
+//@ func (*object).Merge$1 [C06 C09]
+//@   requires live: isVObj(deref(result)) && plain(voref(deref(result))) && invO(obj(voref(deref(result)))) && obj(voref(deref(result))).ptr == deref(result)
+//@   requires arg: okArg(val) && supp(val)
+//@   let r := obj(voref(deref(result)))
+//@   assigns  obj(obj(voref(deref(result))))
+//@   panics_iff false
+//@   each     set: has(obj(voref(deref(result))).val, key) && wrapsS(obj(voref(deref(result))).val[key], val)
+//@   others   k2 str :: has(obj(voref(deref(result))).val, k2) == old(has(obj(voref(deref(result))).val, k2)) && obj(voref(deref(result))).val[k2] == old(obj(voref(deref(result))).val[k2])
+//@   ensures  hdr: deref(result) == old(deref(result)) && mapid(r.val) == old(mapid(r.val))
+
+//@ func (*object).Merge callbacks [C06 C09]
+//@   requires invO(ego)
+//@   requires arg: isVObj(another) && okVal(another)
+//@   let a := obj(impl(voref(another)))
+//@   assigns  nothing
+//@   panics_iff false
+//@   plet r := obj(voref(result))
+//@   ensures  new: isVObj(result) && fresh(r) && plain(r) && invO(r) && r.ptr == result && fresh(mapid(r.val)) [C09 C06]
+//@   ensures  keys: forall k str :: {has(r.val, k)} has(r.val, k) == (old(has(ego.val, k)) || old(has(a.val, k)))
+//@   ensures  argument-wins: forall k str :: {r.val[k]} old(has(a.val, k)) ==> wrapsS(r.val[k], old(valOf(a.val[k])))
+//@   ensures  receiver-copied: forall k str :: {r.val[k]} old(has(ego.val, k)) && !old(has(a.val, k)) ==> copyF(mark(), old(ego.val[k]), r.val[k])
+
+//@ func (*object).ForEach callbacks [C14 C19 C06 C09]
+//@   requires invO(ego)
+//@   let n := len(ego.val)
+//@   let t0 := trlen()
+//@   assigns  nothing
+//@   panics_iff false
+//@   callback_args okArg(a0) && okArg(a1) && supp(a1)
+//@   ensures  calls: exists o ord :: {isEnum(o, dom(ego.val), n)} isEnum(o, dom(ego.val), n) && trlen() == t0 + n && (forall j int :: {trA(j)} t0 <= j && j < t0 + n ==> trA(j) == VStr(o[j - t0]) && trB(j) == valOf(ego.val[o[j - t0]])) && (forall k str :: {has(ego.val, k)} has(ego.val, k) ==> t0 <= t0 + enumPos(o, dom(ego.val), n, k) && enumPos(o, dom(ego.val), n, k) < n && trA(t0 + enumPos(o, dom(ego.val), n, k)) == VStr(k) && trB(t0 + enumPos(o, dom(ego.val), n, k)) == valOf(ego.val[k]))
+//@   ensures  prefix: forall j int :: 0 <= j && j < t0 ==> trA(j) == old(trA(j)) && trB(j) == old(trB(j))
+//@   ensures  fluent: result == ego.ptr [C19]
+//@   loop 1
+//@     assigns nothing
+//@     invariant range: 0 <= idx && idx <= ordn && ordn == n
+//@     invariant count: trlen() == t0 + idx
+//@     invariant calls: forall j int :: {trA(j)} t0 <= j && j < t0 + idx ==> trA(j) == VStr(ord[j - t0]) && trB(j) == valOf(ego.val[ord[j - t0]])
+//@     invariant prefix: forall j int :: 0 <= j && j < t0 ==> trA(j) == old(trA(j)) && trB(j) == old(trB(j))
+//@     decreases ordn - idx
